@@ -531,6 +531,12 @@ func GenXZ(r *sim.Rng, big bool) *XZ {
 		if r.Chance(1, 6) {
 			bs.ExtraHdrPad = r.Range(1, 3)
 		}
+		if r.Chance(1, 40) {
+			// a block header of the largest size the format allows (1024 bytes,
+			// size byte 0xFF) or just below it
+			n := len(refxz.BuildBlockHeader(bs))
+			bs.ExtraHdrPad += (1024-n)/4 - r.Intn(2)*r.Intn(3)
+		}
 		blocks = append(blocks, bs)
 		x.Content = append(x.Content, cs.Content...)
 	}
